@@ -27,11 +27,74 @@ def check(pid, level, ref, technique, text, note):
     CHECKS[pid] = (level, ref, technique, text, note)
 
 
+NOTE = ("Trusts pandas/pyarrow/triqler/scikit-learn as installed, the generators' bounds (listed in evidence.assumptions) and "
+        "SimParallel's fidelity to joblib's threading backend (checked by ./check selftest-fidelity). Sampling, not proof.")
+
+check(
+    "C02", "exploration", "DESIGN.md §5 C02",
+    "deterministic simulation: brew's worker threads under a seeded baton-passing scheduler with line-level pre-emption, seeded chunk knobs, and a recording estimator; fold-integrity reference model over the recorded fit/predict rows",
+    "Seeded search over data sets x fold counts x caps x worker schedules x chunk sizes; every run is checked against a model of what fold integrity means (partition, spectra kept together, no training row in the held-out fold, score produced by the fold's model). The failures this guards against need a particular interleaving or chunking, which only a controlled sweep reaches.",
+    NOTE,
+)
+check(
+    "C03", "exploration", "DESIGN.md §5 C03",
+    "deterministic simulation: assign_confidence spill workers under the seeded scheduler, seeded confidence/merge chunk sizes and spill-file listing order; dictionary competition model + reference TDC as oracle; brew_rollup as second workload",
+    "Seeded search over tables x score vectors (strict and with planted exact ties) x switches x chunk sizes x schedules, each compared with an in-memory competition/rollup model and the defining q-value formula.",
+    NOTE,
+)
+check(
+    "C05", "exploration", "DESIGN.md §5 C05",
+    "deterministic simulation, differential: reference execution (text, knobs > file, no threads) vs perturbed execution (six seeded chunk knobs, 2-16 workers under a seeded schedule, permuted listings, Parquet row groups)",
+    "One scenario executed twice; the perturbed execution must agree with the reference on error parity, parsed data, scores, coefficients and every result file. This is the property the technique fits best: schedule x knobs x format is exactly the space the simulator owns.",
+    NOTE,
+)
+check(
+    "C07", "fault_enumeration", "DESIGN.md §5 C07",
+    "deterministic simulation with fault injection at the learner seam: all 6^folds assignments of estimator fault modes (noise, constant, recognised error, anti, memorise) per sampled data set, x label encodings x feature direction; accept-count/fallback oracle + direction clause on assign_confidence",
+    "For every sampled data set and fold count <= 4 the complete space of per-fold learner faults is enumerated; data sets, encodings, schedules are sampled.",
+    NOTE,
+)
+check(
+    "C08", "exploration", "DESIGN.md §5 C08",
+    "deterministic simulation over histories: repeat in process, fresh interpreter under another PYTHONHASHSEED, 2-8 workers under several seeded schedules, every permutation of fed-back models; byte equality of digests",
+    "Seeded search over data/config; each scenario is a history of executions that must be bit-identical (fold assignment, coefficients, scores, PSM/peptide/protein result files).",
+    NOTE,
+)
+check(
+    "C09", "fault_enumeration", "DESIGN.md §5 C09",
+    "deterministic simulation with crash/fault injection: every mutation call (write/append/unlink/move) of an earlier run x {io error, kill before, kill after, torn write} in forked step processes, multi-run histories, CLI conversion crashes; observed run == clean-directory run",
+    "Crash points of one earlier run are enumerated completely per sampled grid cell (and all .tsv write calls in the thorough CLI family); multi-run histories are sampled. Oracle: byte-identical results vs a clean directory, intermediates gone, user's PIN intact.",
+    NOTE + " Crash = process death with page cache intact (kill -9).",
+)
 check(
     "C10", "exploration", "DESIGN.md §5 C10",
-    "deterministic simulation: read_pin's column-scan workers under a seeded baton-passing scheduler, seeded scan chunk sizes / row groups / table shapes, checked against a plain-Python parse model",
-    "Seeded search over table shapes x scan-chunk knobs x worker schedules with a reference parse model as oracle; sampling, not proof. Right level because the failures depend on feature-count modulo chunk-size and on which worker appends the identifier frame, which only a controlled sweep reaches.",
-    "Trusts pandas/pyarrow as installed, the generator's notion of 'well-formed' (listed in evidence.assumptions) and SimParallel's fidelity to joblib's threading backend (selftest-fidelity).",
+    "deterministic simulation: read_pin's column-scan workers under the seeded scheduler, seeded scan chunk sizes / row groups / table shapes, plain-Python parse model as oracle",
+    "Seeded search over table shapes x scan-chunk knobs x worker schedules with a reference parse model as oracle. The failures depend on feature-count modulo chunk-size, which only a sweep reaches.",
+    NOTE,
+)
+check(
+    "C11", "exploration", "DESIGN.md §5 C11",
+    "deterministic simulation: same World-A executions as C02 with a recording estimator; per-fold affine calibration reference model (anchors 0 and -1) incl. the explicit-error path",
+    "Seeded search; per (fold, collection) the returned scores must equal (r - t0)/(t0 - d) computed from the recorded raw outputs with the reference TDC.",
+    NOTE,
+)
+check(
+    "C13", "exploration", "DESIGN.md §5 C13",
+    "seeded stateful operation histories (Hypothesis rule-based machine outside pytest, one process per seed) over readers/writers with buffer/chunk/row-group knobs; list-of-rows table model checked after every operation; recorded op list is the replay file",
+    "Histories of writer/reader operations with configuration knobs, checked against a table model operation by operation; no fault is injected because the statement promises nothing after a failed append.",
+    "Trusts pandas/pyarrow as installed and the value domain listed in evidence.assumptions. Sampling, not proof.",
+)
+check(
+    "C14", "exploration", "DESIGN.md §5 C14",
+    "seeded stateful operation histories over sorted runs and both merge implementations with chunk knobs, plus one injected fault kind (unsorted stored run must be rejected); multiset + order model",
+    "Histories of run creation / merging with ties, single-row runs, both directions, all row kinds and chunk sizes; the sortedness fault checks the rejection clause.",
+    "Trusts pandas/pyarrow as installed. Sampling, not proof.",
+)
+check(
+    "C16", "exploration", "DESIGN.md §5 C16",
+    "deterministic simulation of the hash-order / entry-order nondeterminism: each structure parsed under 3 entry orders in this interpreter and in 2 fresh interpreters with other PYTHONHASHSEEDs; grouping invariants + equality of canonical forms",
+    "Order-independence is decided by varying the nondeterminism source directly (hash seed, entry order); the structural half is evaluated as an invariant on every simulated run over sampled structures plus blocks of the exhaustive <=4x4 enumeration.",
+    "Incidence is taken from mokapot.digest (C17's function). Sampling, not proof.",
 )
 
 PENDING = {}
